@@ -47,6 +47,16 @@ def mutate_text(rng, txt):
 
 def corpus():
     out = []
+    # bytes that are not UTF-8 (written through surrogate escapes): a lead byte inside a comment
+    # with more declarations after it, a lead byte as the very last byte, an overlong form, a lone
+    # continuation byte, a truncated sequence inside an identifier position
+    out.append(("bad_utf8_lead_in_comment", "// caf\udce9\nconst uint32 A = 1;\nconst uint32 VERSION = 2;\n"))
+    out.append(("bad_utf8_lead_at_eof", "const uint32 A = 1;\n// x \udcf0"))
+    out.append(("bad_utf8_lead_at_eof_block", "const uint32 A = 1;\n/* x \udce2\udc82"))
+    out.append(("bad_utf8_overlong", "/* \udcc0\udc80 */\nconst uint32 A = 1;\n"))
+    out.append(("bad_utf8_continuation", "// \udc80\nconst uint32 A = 1;\n"))
+    out.append(("bad_utf8_in_doc", "interface I {\n/**\n * \udcff\udcfe\n */\n  method f();\n};\n"))
+    out.append(("bad_utf8_f8", "// \udcf8\udc88\udc80\udc80\udc80\nstruct S { uint8 a; };\n"))
     out.append(("array_size_0", "struct S { uint8[0] a; };\n"))
     out.append(("array_size_65536", "struct S { uint8[65536] a; };\n"))
     nest = "struct L0 { uint8[65535] a; };\n"
